@@ -223,14 +223,74 @@ func genSchedNow(r *kit.Rand) string {
 		ticks = append(ticks, t)
 	}
 	per := kit.Pick(r, []int64{every, 3 * sec})
-	return fmt.Sprintf("sched toks=%s per=%d off=%d ev=%d al=0 cron=0 gb=0 gbo=0 ag=0 fill=- tags=0 decl=db.rp from=db.rp start=0 stop=%s lt=1 rel=%d ticks=%s",
-		schedToks[r.Intn(len(schedToks))], per, off, every, stopS, rel, i64s(ticks))
+	return fmt.Sprintf("sched toks=%s per=%d off=%d ev=%d al=0 cron=0 gb=0 gbo=0 ag=0 fill=- tags=0 pt=%s decl=db.rp from=db.rp start=0 stop=%s lt=1 rel=%d ticks=%s",
+		schedToks[r.Intn(len(schedToks))], per, off, every, kit.Pick(r, []string{"-", "5000000000"}), stopS, rel, i64s(ticks))
 }
 
+// fires2001: the firing times of the cron schedule `0 0 0 1 * * 2001` (first of every month of 2001, UTC),
+// computed with the standard library, not with cronexpr.
+func fires2001() []int64 {
+	var out []int64
+	for m := time.January; m <= time.December; m++ {
+		out = append(out, time.Date(2001, m, 1, 0, 0, 0, 0, time.UTC).UnixNano())
+	}
+	return out
+}
+
+// genSchedCronEnding: a cron schedule with a year field ends; cronexpr.Next then answers the zero time and
+// Queries must stop (`current.IsZero()`), wherever the span lies relative to the schedule's end.
+func genSchedCronEnding(r *kit.Rand) string {
+	fires := fires2001()
+	day := int64(86400) * sec
+	var start int64
+	switch r.Intn(5) {
+	case 0:
+		start = fires[0] - int64(1+r.Intn(40))*day // before the first firing
+	case 1:
+		start = fires[r.Intn(12)] // exactly on a firing: that one is not in the span
+	case 2:
+		start = fires[9] + int64(r.Intn(20))*day // October: two firings left
+	case 3:
+		start = fires[11] + int64(r.Intn(3))*day // after the last firing: nothing
+	default:
+		start = fires[r.Intn(12)] + int64(r.U64()%uint64(20*day))
+	}
+	var stop int64
+	switch r.Intn(4) {
+	case 0:
+		stop = fires[11] // ends exactly on the last firing
+	case 1:
+		stop = fires[11] + int64(1+r.Intn(500))*day // the schedule ends before the span does
+	case 2:
+		stop = fires[11] - 1
+	default:
+		stop = start + int64(r.Intn(200))*day
+	}
+	if stop < start {
+		stop = start
+	}
+	var ticks []int64
+	for _, f := range fires {
+		if f > start && f <= stop {
+			ticks = append(ticks, f)
+		}
+	}
+	per := kit.Pick(r, []int64{day, 3600 * sec, 0})
+	off := kit.Pick(r, []int64{0, 0, 3600 * sec, -60 * sec})
+	return fmt.Sprintf("sched toks=%s per=%d off=%d ev=0 al=0 cron=-1 gb=0 gbo=0 ag=0 fill=%s tags=%s pt=%s decl=db.rp from=db.rp start=%d stop=%d lt=1 fires=%s ticks=%s",
+		schedToks[r.Intn(len(schedToks))], per, off, kit.Pick(r, fills), kit.Pick(r, []string{"0", "1", "2"}), kit.Pick(r, pts), start, stop, i64s(fires), i64s(ticks))
+}
+
+var fills = []string{"-", "-", "0", "null", "none", "previous", "linear"}
+var pts = []string{"-", "5000000000", "1500000000000000001"}
+
 func genSched(r *kit.Rand, i int) string {
-	mode := i % 11
+	mode := i % 12
 	if mode == 10 {
 		return genSchedNow(r)
+	}
+	if mode == 11 {
+		return genSchedCronEnding(r)
 	}
 	every := kit.Pick(r, everyChoices)
 	if every < ms {
@@ -300,7 +360,7 @@ func genSched(r *kit.Rand, i int) string {
 	} else if r.Chance(1, 10) {
 		ag = 1 // alignGroup without a time dimension
 	}
-	fill := kit.Pick(r, []string{"-", "-", "0", "null", "none", "previous", "linear"})
+	fill := kit.Pick(r, fills)
 	tags := kit.Pick(r, []string{"0", "0", "1", "2"})
 	toks := schedToks[r.Intn(len(schedToks))]
 	decl, from := "db.rp", "db.rp"
@@ -324,6 +384,7 @@ func genSched(r *kit.Rand, i int) string {
 		ticks = append(ticks, t)
 	}
 	lt := 1
+	gbz := 0
 	if mode == 8 {
 		// arbitrary tick times (not a schedule): range per tick and history independence only
 		lt = 0
@@ -341,23 +402,37 @@ func genSched(r *kit.Rand, i int) string {
 	}
 	if mode == 9 {
 		// schedule selection errors
-		switch r.Intn(3) {
+		switch r.Intn(5) {
 		case 0:
 			ev, cron = 0, 0
 		case 1:
 			ev, cron = every, 5
-		default:
+		case 2:
 			ev, cron = -every, 0
+		case 3:
+			gbz = 1 // groupBy(time(0s)): refused (with alignGroup it used to divide by zero at the first tick)
+			gb, ag = 0, r.Intn(2)
+		default:
+			gb, ag = -4*sec, r.Intn(2) // a negative time dimension
 		}
-		ticks, lt = nil, 0
+		if gbz == 0 && gb >= 0 {
+			ticks, lt = nil, 0
+		}
 	}
-	return fmt.Sprintf("sched toks=%s per=%d off=%d ev=%d al=%d cron=%d gb=%d gbo=%d ag=%d fill=%s tags=%s decl=%s from=%s start=%d stop=%d lt=%d ticks=%s",
-		toks, per, off, ev, al, cron, gb, gbo, ag, fill, tags, decl, from, start, stop, lt, i64s(ticks))
+	return fmt.Sprintf("sched toks=%s per=%d off=%d ev=%d al=%d cron=%d gb=%d gbo=%d ag=%d gbz=%d fill=%s tags=%s pt=%s decl=%s from=%s start=%d stop=%d lt=%d ticks=%s",
+		toks, per, off, ev, al, cron, gb, gbo, ag, gbz, fill, tags, kit.Pick(r, pts), decl, from, start, stop, lt, i64s(ticks))
+}
+
+func genDims(r *kit.Rand, i int) string {
+	l := []int64{0, 4 * sec, -4 * sec, 7 * sec, 1500 * ms, 60 * sec, 0, 1}[i%8]
+	o := kit.Pick(r, []int64{0, 0, sec, 250 * ms})
+	s := kit.Pick(r, anchors)*sec + int64(r.U64()%uint64(100*sec))
+	return fmt.Sprintf("dims %d %d %d %d", l, o, (i/8)%2, s)
 }
 
 func generate(out *kit.Out, f kit.Flags) {
 	r := kit.NewRand(f.Seed)
-	var nSplice, nTick, nSched int // each kind cycles through its own directed shapes
+	var nSplice, nTick, nSched, nDims int // each kind cycles through its own directed shapes
 	for i := 0; i < f.N; i++ {
 		id := fmt.Sprintf("g%d", i)
 		switch {
@@ -369,6 +444,13 @@ func generate(out *kit.Out, f kit.Flags) {
 			for k := 0; k < 8; k++ {
 				ls = append(ls, genTick(r.Fork(), nTick))
 				nTick++
+			}
+			if nTick%32 == 0 {
+				ls = nil
+				for k := 0; k < 8; k++ {
+					ls = append(ls, genDims(r.Fork(), nDims))
+					nDims++
+				}
 			}
 			emit(out, id, ls)
 		default:
